@@ -1,3 +1,59 @@
+/-
+  C02 — a probe's stream is exactly the binding history of its focus variable.
+
+  On model M2 (see Props/C01 for the model and its ties).  The *reference semantics* (`runRef` with
+  `hk = some cfg`) is Python in which every binding of a captured name — parameter at entry, plain / tuple /
+  starred / nested / augmented / annotated assignment, loop target, with-target, exception name, import,
+  nested def / class, assignment expression — is followed by ONE call of the handler carrying the value
+  bound (`hook`, `postBind`, `paramHook` in Model/PySem, PyRun); nothing else calls it except the meta
+  events.  With the recording handler the list of calls *is* the binding history.
+
+  * `C02_events_are_the_reference_history`: for every function of the core fragment, every capture set,
+    host, input and generator script, the handler state (the recorded events, in order, with their values)
+    after running the REWRITTEN function is the one after running the reference semantics.
+  * `C02_one_event_per_binding`, `C02_no_event_when_not_captured`: what a binding contributes to the
+    history — exactly one event with the value bound when the name is captured, nothing otherwise.
+  * `C02_rebinding_reports_current_value`: the re-binding after Python's own unpacking reports the value
+    the name has at that moment and stores what the handler answers.
+  That the reference semantics' events are what a real probe delivers is the executable correspondence
+  (model events vs `probing('f > x')`), and against Python's own bindings the twin oracle.
+-/
+import PteraModel.Proofs.PyLiteSpec
 namespace Ptera.Props.C02
-theorem C02_placeholder : True := trivial
+open Ptera.Py Ptera.Sem
+
+variable {W HS : Type}
+
+/-- the events recorded while running the rewritten function are those of the reference semantics -/
+theorem C02_events_are_the_reference_history (host : Host W HS) (hh : HostSpec host) (cfg : Cfg) (f : FunDef)
+    (fuel : Nat) (hf : coreF f = true) (st0 : St W HS) (hinit : ∀ x ∈ (collect f).external, st0.loc x = none) :
+    (runInstr (ctxOf host cfg f fuel).envI fuel (instrument cfg f) st0).2.hs
+      = (runRef (ctxOf host cfg f fuel).envR fuel f st0).2.hs :=
+  (instrument_refines host cfg f fuel hf (libSpec_of_host host hh cfg f fuel hf) st0 hinit).2.hs
+
+/-- the recording handler of the generated programs: one more event, the value goes through -/
+theorem C02_one_event_per_binding (cfg : Cfg) (sc : String → Bool) (name : String) (ann : Option Ann) (v : Val)
+    (hv : v ≠ .absent) (hon : shouldInstr cfg name (annTags ann) = true)
+    (st : St PyLite.World PyLite.HState) (hno : st.hs.override = none) :
+    let env : Env PyLite.World PyLite.HState := { host := PyLite.host, sc := sc, hk := some cfg }
+    ((hook env name ann v : M _ _ Val) st).1 = .ok v
+    ∧ ((hook env name ann v : M _ _ Val) st).2.hs.events
+        = st.hs.events ++ [{ name := name, key := .noneV, ann := PyLite.annVal (annArg ann), value := v, ovr := true }] := by
+  simp only [hook, hon, if_true, interactSem, PyLite.host, PyLite.hnd, hno, annValOpt]
+  cases v <;> first | exact absurd rfl hv | simp
+
+theorem C02_no_event_when_not_captured (env : Env W HS) (cfg : Cfg) (henv : env.hk = some cfg) (name : String)
+    (ann : Option Ann) (v : Val) (hoff : shouldInstr cfg name (annTags ann) = false) (st : St W HS) :
+    (hook env name ann v : M W HS Val) st = (.ok v, st) := by
+  unfold hook
+  simp only [henv, hoff, Bool.false_eq_true, if_false]
+  rfl
+
+/-- after Python has bound `x` itself: the handler is shown the current value of `x`, and `x` is bound to
+    its answer -/
+theorem C02_rebinding_reports_current_value (env : Env W HS) (cfg : Cfg) (henv : env.hk = some cfg) (x : String) :
+    postBind1 env x = (lookup env x >>= fun v => hook env x none v >>= fun r => setLoc x (some r)) := by
+  unfold postBind1
+  simp [henv]
+
 end Ptera.Props.C02
